@@ -587,6 +587,8 @@ def check_directed(case, ctx):
     from hypergraphx.generation.directed_configuration_model import directed_configuration_model
     changed = merged = overlap = fed_overlap = False
     trace = []
+    if case.get("overlap_family") and any(set(a) & set(b) for a, b in case["edges"]):
+        ctx.label("input hyperedge with a node in both source and target")
     for k in case["seeds"]:
         h, in_edges, in_nodes = _build_directed(case)
         # feedback rounds: the output of the model (which may hold hyperedges whose source and
@@ -725,11 +727,19 @@ def _directed_cases(draw, tier):
     u = draw(S.universes(min_size=3, max_size=8 if big else 7))
     n = len(u["labels"])
 
+    # one case in five: "reply-all" hyperedges -- some source nodes are also targets of the same
+    # hyperedge (accepted by DirectedHypergraph; such a node counts in both degrees)
+    overlap = draw(st.integers(0, 4)) == 0
+
     @st.composite
     def dedge(draw):
         nodes = draw(st.lists(st.integers(0, n - 1), min_size=2, max_size=min(n, 5), unique=True))
         cut = draw(st.integers(1, len(nodes) - 1))
-        return [nodes[:cut], nodes[cut:]]
+        src, tgt = nodes[:cut], nodes[cut:]
+        if overlap and draw(st.integers(0, 2)) > 0:
+            k = draw(st.integers(1, len(src)))
+            tgt = tgt + src[:k]
+        return [src, tgt]
 
     edges = draw(st.lists(dedge(), min_size=2, max_size=9 if big else 7,
                           unique_by=lambda e: (tuple(sorted(e[0])), tuple(sorted(e[1])))))
@@ -742,6 +752,7 @@ def _directed_cases(draw, tier):
                                unique=True)),
         # number of times the output is handed back to the model as its next input
         "feedback": draw(st.sampled_from([0, 0, 1, 1, 2])),
+        "overlap_family": overlap,
     }
     case["weights"] = (draw(st.lists(S.weights_int, min_size=len(edges), max_size=len(edges)))
                        if case["weighted"] else [])
